@@ -144,7 +144,7 @@ def case_of(path, line, opener='"op":"case"'):
         return None
 
 
-def validate_files(run, specdir, module, cfgbytes, files, vocab, label, sig_fields, batch_lines=40000, heap="8g"):
+def validate_files(run, specdir, module, cfgbytes, files, vocab, label, sig_fields, batch_lines=40000, heap="8g", opener='"op":"case"'):
     """validate trace files, many per TLC run; a rejection at an event of the property's vocabulary is a violation"""
     wd = vlib.scratch("verif.enct.")
     files = list(files)
@@ -182,7 +182,7 @@ def validate_files(run, specdir, module, cfgbytes, files, vocab, label, sig_fiel
                                         % (f, line, str(ev)[:400]))
             keep = os.path.join(run.outdir, os.path.basename(f))
             shutil.copy(f, keep)
-            seg = case_of(f, line) or {}
+            seg = case_of(f, line, opener) or {}
             sig = {"kind": "trace-rejected", "label": label}
             for k in sig_fields:
                 if k in ev:
@@ -324,26 +324,106 @@ def c31_stats(files):
     return evals, len(distinct)
 
 
+# ---- C31, malformed input (BatchWire) ----
+C31W_BUGS = {"WireBoundBeforeAdvance": ["NoPanic", "FastSlowAgree"], "WireFastPathOffByOne": ["NoPanic", "FastSlowAgree"]}
+C31W_INVS = ["NoPanic", "ValidRoundTrip", "TruncPrefix", "FastSlowAgree"]
+MAL_VOCAB = ("mal",)
+
+
+def c31w_consts(quick):
+    """the malformed-input scope: lengths around the one-byte varint limit (127/128), the fast-path limit of DecodeStr (128 bytes
+    remaining) and with 2-, 3- (thorough: 4-) byte length prefixes; every single defect of BatchWireGen"""
+    c = dict(WBug="none", RecKinds=[0, 1, 2, 3, 7, 15], KLens=[1, 127, 128, 16384], VLens=[0, 1, 127, 128, 300, 16384],
+             PreKinds=[1], PreKLens=[1], PreVLens=[300], MaxRecs=2, MaxCut=7, Over=[1, 2, 3, 4, 5, 6], Under=[1, 2],
+             Huge=[268435456, 2147483647], BadKinds=[4, 17, 25, 30, 31, 64, 255],
+             Damage=["cut", "hdr", "len", "kind", "count", "pad"], Emit=True)
+    if not quick:
+        c.update(KLens=[1, 127, 128, 129, 300, 16384], VLens=[0, 1, 127, 128, 129, 300, 16383, 16384, 2097152],
+                 PreKinds=[0, 1, 3], PreKLens=[1, 130], PreVLens=[1, 300], MaxCut=9)
+    return c
+
+
+def c31_mal_generate(run):
+    """exhaustive design check of the wire model; the same run emits every damaged batch of the scope as an input for the real code"""
+    quick = run.tier == "quick"
+    consts = c31w_consts(quick)
+    with Phase(run, "mal_design"):
+        r = vlib.tlc_must_pass(BE, "BatchWireGen", "run.cfg", workers=WORKERS, timeout=2400, heap="6g",
+                               extra_files={"run.cfg": cfg_text(consts, invariants=([] if SKIP_DESIGN else C31W_INVS) + ["EmitInv"])})
+    with _LOCK:
+        run.add_design("BatchWireGen exhaustive (batches of <= %d records; last record: kinds %s x key lengths %s x value lengths %s; one defect of %s: "
+                       "tail cut by 1..%d bytes, header cut, declared length +%s/-%s/huge, kind byte in %s, count +-1, padded length prefix)"
+                       % (consts["MaxRecs"], consts["RecKinds"], consts["KLens"], consts["VLens"], consts["Damage"], consts["MaxCut"],
+                          consts["Over"], consts["Under"], consts["BadKinds"]), r)
+    return printed_json(r.out)
+
+
+def c31_mal_corrupt(l):
+    if '"op":"mal"' in l and '"res":"err"' in l:
+        e = json.loads(l)
+        if e["via"] in ("reader", "breader", "setrepr_db"):
+            e["res"] = "ok"
+            return json.dumps(e)
+    return None
+
+
+def c31_mal_drive(run, binp, cases):
+    """drive the damaged batches through every transport of the real code; BatchWireTrace decides every answer"""
+    quick = run.tier == "quick"
+    d = os.path.join(vlib.scratch("verif.enc31m."), "mal")
+    os.makedirs(d)
+    cf = os.path.join(d, "malcases.jsonl")
+    with open(cf, "w") as o:
+        for c in cases:
+            o.write(json.dumps(c) + "\n")
+    env = dict(VERIF_OUT=d, VERIF_MALCASES=cf, VERIF_SEED=str(run.seed), VERIF_REPLAY_EVERY="3" if quick else "1")
+    with Phase(run, "mal_drive"):
+        _, info = run_go(binp, "TestC31Mal$", env)
+    run.cov["driver_malformed"] = info
+    files = sorted(glob.glob(os.path.join(d, "c31mal-*.ndjson")))
+    if not files or info.get("replayed", 0) == 0 or info.get("err", 0) == 0:
+        raise vlib.Inconclusive("malformed-input driver produced nothing to judge: %s" % info)
+    tc = trace_cfg(dict(WBug="none"))
+    with Phase(run, "mal_validate"):
+        ev, rej = validate_files(run, BE, "BatchWireTrace", tc, files, MAL_VOCAB, "C31/malformed", sig_fields=("op", "via", "res"),
+                                 batch_lines=30000, opener='"op":"mcase"')
+    run.cov["trace_events_malformed"] = ev
+    return files, rej, tc
+
+
 def run_c31(run):
     quick = run.tier == "quick"
-    for m in ("BatchEncGen", "BatchEncTrace"):
+    for m in ("BatchEncGen", "BatchEncTrace", "BatchWireGen", "BatchWireTrace"):
         vlib.sany(BE, m)
     def bugs():
         with Phase(run, "seeded_bugs"):
             run_bug_cfgs(run, BE, "BatchEncGen", C31_BUGS)
+            run_bug_cfgs(run, BE, "BatchWireGen", C31W_BUGS)
 
     def build():
         with Phase(run, "build"):
             return (vlib.build_driver("internal/verif/encdrv", name="internal_verif_encdrv" + DRVSUFFIX),
                     vlib.build_driver(".", name="root_enc" + DRVSUFFIX, timeout=2400))
     # the design run, the seeded-bug runs, the simulation and the go builds are independent subprocesses
-    small_cases, big_cases, _, (binp, rootp) = parallel(
+    small_cases, big_cases, mal_cases, _, (binp, rootp) = parallel(
         lambda: c31_design(run),
         lambda: c31_simulate(run, walks=(250 if quick else 2500), maxops=(8 if quick else 12)),
+        lambda: c31_mal_generate(run),
         bugs, build)
     rng = random.Random(run.seed)
-    if not small_cases or not big_cases:
-        raise vlib.Inconclusive("the generator produced no cases (small=%d, simulated=%d)" % (len(small_cases), len(big_cases)))
+    if not small_cases or not big_cases or not mal_cases:
+        raise vlib.Inconclusive("the generator produced no cases (small=%d, simulated=%d, malformed=%d)" % (len(small_cases), len(big_cases), len(mal_cases)))
+    run.cov["malformed_cases_generated"] = len(mal_cases)
+    # the malformed-input cases are driven and judged in their own thread, beside the round-trip cases
+    mal_res, mal_err = [], []
+
+    def mal_thread():
+        try:
+            mal_res.append(c31_mal_drive(run, binp, mal_cases))
+        except BaseException as e:       # noqa
+            mal_err.append(e)
+    mth = threading.Thread(target=mal_thread)
+    mth.start()
     # quick: every exhaustive case goes through every batch-level transport and one DB-level group (rotating);
     # the simulated ones through everything.  thorough: everything through everything.
     cap_big = 250 if quick else 3000
@@ -389,6 +469,11 @@ def run_c31(run):
             rejected += rej
             run.cov["trace_events_" + name] = ev
             allfiles += files
+    mth.join()
+    if mal_err and not (rejected or run.violations):
+        raise mal_err[0]
+    mal_files, mal_rej, mal_tc = mal_res[0] if mal_res else ([], 0, None)
+    rejected += mal_rej
     if dead and rejected == 0:
         raise vlib.Inconclusive(dead[0])
     if rejected == 0:
@@ -398,7 +483,20 @@ def run_c31(run):
                          lambda l: '"op":"case"' in l,
                          "one corrupted observation (count / state / flushable entry) and one dropped case event of accepted real "
                          "traces were both rejected by TLC")
+            what = run.cov["binding_demo"]
+            binding_demo(run, BE, "BatchWireTrace", mal_tc, mal_files, c31_mal_corrupt, lambda l: '"op":"mal"' in l,
+                         what + "; malformed input: one answer 'err' turned into 'ok' and one dropped answer were both rejected by TLC")
     evals, distinct = c31_stats(allfiles)
+    mal_evals = mal_distinct = 0
+    for f in mal_files:
+        for l in open(f):
+            if '"op":"mal"' in l:
+                mal_evals += 1
+            elif '"op":"mcase"' in l and '"mut":"none"' not in l:
+                mal_distinct += 1
+    evals += mal_evals
+    distinct += mal_distinct
+    run.cov["malformed_answers_decided"] = mal_evals
     run.cov["evaluations"] = evals
     run.cov["distinct_nontrivial"] = distinct
     run.cov["rule"] = ("evaluations = observations of the real code decided by BatchEncTrace: decoded op list + Count() + header count after each "
@@ -406,14 +504,24 @@ def run_c31(run):
                        "batch), visible state after each DB-level transport (commit, flush, crash clone + WAL replay read-only and read-write, "
                        "tiny-memtable large-batch path, SetRepr->DB.Apply, Apply->Commit, indexed batch reads and commit), and flushable-batch vs "
                        "memtable internal iteration (commit path and replay path). A case is non-trivial when it has >= 2 records of >= 2 kinds; "
-                       "distinct by (pre-state, ops).")
+                       "distinct by (pre-state, ops). Malformed input: + the answers (ok / err / panic, records read) of batchrepr.Reader, "
+                       "Batch.SetRepr + Reader, DB-batch SetRepr, Batch.Apply into a DB batch and an indexed batch, DB.Apply, and Open over a WAL "
+                       "holding the bytes (normal and large-batch path; quick: every third case), decided by BatchWireTrace; every damaged byte "
+                       "string (TLC-enumerated, all distinct) counts as one non-trivial case.")
     for name, P, S, files in sets:
         ls = [json.loads(l) for l in list(open(files[0]))[:3]]
         run.sample({"set": name, "trace": os.path.basename(files[0]), "first_events": ls})
     run.assumptions += [
         "key universe: ranks of KV.tla mapped to testkeys-style keys (prefix letter, @suffix); values are ids; SingleDelete is generated "
         "only inside its contract; range-key bounds are prefix keys",
-        "NOT covered: 'decoding arbitrary bytes never panics' (no model of malformed input; no fuzzing is done here)",
+        "malformed input: byte strings are valid batches (keys 'a'.., values 'b'.., kinds Delete/Set/Merge/LogData/SingleDelete/DeleteRange) with "
+        "ONE defect (tail cut, header cut, a declared length off by a few bytes or huge, a kind byte that is no batch kind, count +-1, a "
+        "non-minimal length prefix); not arbitrary byte soup. A non-minimal or overflowing length prefix may be accepted or rejected (the fast "
+        "and the general path of DecodeStr differ), but never panic; a count that disagrees with well-formed records may be reported or not by "
+        "WAL replay (memTable.apply reports it, newFlushableBatch only an excess)",
+        "NOT generated (outside the judged domain): ingest-family kinds (IngestSST, Excise, IngestSSTWithBlobs), for which Batch.Apply, "
+        "memTable.apply and replayIngestedFlushable panic through explicit assertions; DB.Apply of well-formed records with a wrong header "
+        "count (the commit pipeline deliberately panics on an apply error); semantically invalid payloads (range-key values, start >= end)",
         "TLC's verdict on each observation is authoritative; the Go drivers only execute and record",
     ]
 
@@ -618,8 +726,10 @@ def run_c35(run):
 
 # ---------------------------------------------------------------------------------------------
 C31_NOTE = ("Claimed in part. Covered: round trip of kinds/keys/values/count through Reader, Repr/SetRepr, Batch.Apply, commit, WAL replay, the "
-            "large-batch path, and flushable batch == memtable == the spec's internal iteration. NOT covered: the clause 'decoding arbitrary "
-            "bytes returns an error instead of panicking' - malformed input has no model here and is not fuzzed. Trusted: TLC, KV.tla's "
+            "large-batch path, and flushable batch == memtable == the spec's internal iteration; 'decoding arbitrary bytes returns an error "
+            "instead of panicking' for valid batches with one defect (BatchWire.tla: cut tails, damaged lengths / kinds / count, strings up to "
+            "16 KiB, thorough 2 MiB, i.e. 1- to 4-byte length prefixes) through Reader, SetRepr, Batch.Apply, DB.Apply and WAL replay - not for "
+            "arbitrary byte soup, ingest-family kinds or semantically invalid payloads. Trusted: TLC, KV.tla's "
             "ApplyBatch as the meaning of a batch, the drivers' key/value encoding and recording. Bounded: 4-key universe exhaustively for "
             "batches of <= 2 (thorough: <= 3) records, 9-key universe by simulation for batches of <= 8 (thorough: <= 12) records.")
 C31_TECH = "TLA+ model (BatchEnc.tla over KV.tla) + TLC-generated batches run on the real Batch/DB code + TLC trace validation of every observation"
@@ -640,7 +750,12 @@ def REGISTER(reg):
         "large-batch/flushable path (DB-level with a tiny memtable; in-package newFlushableBatch vs a memtable, commit and replay paths). "
         "TLC (BatchEncTrace) decides every observation: decoded ops = generated ops, Count and header count, visible state = "
         "ApplyBatch(state, ops), flushable iteration = memtable iteration = the spec's internal order. The design model's invariants "
-        "(round trip, seqnums inside the allocated range, meaning, flushable = memtable) are checked exhaustively with 4 seeded bugs.",
+        "(round trip, seqnums inside the allocated range, meaning, flushable = memtable) are checked exhaustively with 4 seeded bugs. "
+        "Malformed input: BatchWire.tla states the wire format and a decoder in the steps of Reader.Next/DecodeStr (fast and general path); TLC "
+        "checks on every batch of the scope with one defect that the decoder never reads outside the bytes, that cut batches decode to a prefix, "
+        "that the fast path agrees with the general one (2 seeded decoder bugs are caught), and emits the byte strings; the driver hands each to "
+        "batchrepr.Reader, Batch.SetRepr, Batch.Apply, DB.Apply and Open (WAL replay) inside recover(); BatchWireTrace decides every answer: never "
+        "a panic, an error exactly when the bytes are malformed for that transport, and exactly the records before the defect.",
         C31_NOTE, C31_TECH, "DESIGN 6/C31", engine="enc")
 
 
@@ -657,4 +772,4 @@ def REGISTER(reg):
         C35_NOTE, C35_TECH, "DESIGN 6/C35", level="exploration", engine="enc")
 
 
-SPEC_MODULES = [("BatchEnc", "BatchEncGen"), ("BatchEnc", "BatchEncTrace"), ("KeyOrder", "KeyOrderGen"), ("KeyOrder", "KeyOrderTrace"), ("KeyOrder", "KeyOrderTab")]
+SPEC_MODULES = [("BatchEnc", "BatchEncGen"), ("BatchEnc", "BatchEncTrace"), ("BatchEnc", "BatchWireGen"), ("BatchEnc", "BatchWireTrace"), ("KeyOrder", "KeyOrderGen"), ("KeyOrder", "KeyOrderTrace"), ("KeyOrder", "KeyOrderTab")]
